@@ -383,6 +383,13 @@ func (l c18) Exec(env *core.Env) *core.Result {
 					res.Violate("C18/key-id-mismatch-accepted", key, "the plugin answered for another key id but a signature was returned")
 				case "describe-keyspec-garbage", "describe-keyspec-mismatch":
 					res.Violate("C18/key-spec-mismatch-accepted", key, "the plugin's key spec does not match its key but a signature was returned")
+				case "chain-other-key", "chain-empty", "chain-garbage":
+					// "only if the plugin answered ... with a ... certificate chain consistent with the signature":
+					// THIS answer carried another key's chain / none / bytes that are no certificates - whatever the
+					// returned envelope looks like (a chain remembered from an earlier answer, say)
+					if !envelopeCap {
+						res.Violate("C18/inconsistent-chain-accepted", key, "the plugin's answer carried a certificate chain that cannot belong to the signature (%s) but a signature was returned", fault)
+					}
 				}
 			}
 		})
